@@ -358,6 +358,7 @@ func runC13(c *explore.Ctx) {
 		// the recorded index encodes nothing; the path is re-found by the same deterministic search
 		c.Eval()
 	}
+	c.Begin(scope, int64(c.Shard))
 	nviol := 0
 	res := shardedBFS(c, newM, maxStates, maxDepth, func(path []int, detail string) {
 		nviol++
